@@ -34,6 +34,9 @@ def main(tier, seed, args):
     configs = []
     mons = lambda: [ExpiryBudget(), NoPayAfterRejection(('expiry',)), StopAfterPay(), Coverage(['pay'])]
     shapes = [(1, 1), (2, 1)] if tier == 'quick' else [(1, 2), (2, 2), (3, 1)]
+    import os
+    if os.environ.get('VERIF_C04_SHAPES'):      # development aid: time one shape
+        shapes = [tuple(int(x) for x in sh.split('x')) for sh in os.environ['VERIF_C04_SHAPES'].split(',')]
     for n, b in shapes:
         cfg, pc = cfg_symbolic(n, b)
         configs.append(('expiry[%d htlc%s,%d block%s]' % (n, '' if n == 1 else 's', b, '' if b == 1 else 's'), cfg, pc, mons(),
